@@ -108,6 +108,14 @@ Definition frozen_texts : list (list string * list string) :=
        "if _, err := io.Copy(buf, r); err != nil { return """", err }";
        "return b.s.Put(buf.Bytes())" ]);
     (gen_mapped_Has, [ "return b.s.Has(key)" ]);
+    (gen_NewMapped, [ "return &mappedStore{s: s}" ]);
+    (gen_NewPsql, [ "if db == nil { return NewMemStore() }"; "return &psql{db: db}" ]);
+    (gen_ReadJSON,
+     [ "r, err := b.Open(k)"; "if err != nil { return err }"; "defer r.Close()";
+       "if err := json.NewDecoder(r).Decode(v); err != nil { return err }"; "return r.Close()" ]);
+    (gen_CreateJSON,
+     [ "bs, err := json.Marshal(v)"; "if err != nil { return """", err }";
+       "return b.Create(bytes.NewBuffer(bs))" ]);
     (gen_Hash, [ "ret := sha256.Sum256(bs)"; "return hex.EncodeToString(ret[:])" ]);
     (gen_HashReader,
      [ "h := sha256.New()"; "if _, err := io.Copy(h, r); err != nil { return """", err }";
